@@ -116,6 +116,89 @@ def upper_bound(tree, f=None, depth=0):
     return None
 
 
+def _root_local(f, ex, operand):
+    """the variable an index operand is a (cast) copy of: follows single-definition temporaries"""
+    if operand.get("k") not in ("copy", "move") or operand["pl"]["p"]:
+        return None
+    l = operand["pl"]["l"]
+    for _ in range(8):
+        defs = ex.defs.get(l, [])
+        if len(defs) == 1 and defs[0][0] == "stmt" and not ex.partial.get(l):
+            rv = defs[0][3]
+            if rv["op"] in ("use", "cast") and rv["a"][0].get("k") in ("copy", "move") and not rv["a"][0]["pl"]["p"]:
+                if rv["op"] == "cast" and not rv.get("kind", "").startswith("IntToInt"):
+                    return l
+                l = rv["a"][0]["pl"]["l"]
+                continue
+        break
+    return l
+
+
+def _dominating_guard(f, cfg, ex, block, index_operand, length):
+    """`i < len` established by a test that dominates the indexing, with no assignment to i in between
+    (`while i <= K { a[i]; i += 1 }`, `if i < N { a[i] }`)"""
+    root = _root_local(f, ex, index_operand)
+    if root is None:
+        return None
+    def_blocks = {d[1] for d in ex.defs.get(root, [])}
+    for a in sorted(cfg.reach):
+        sw = f["blocks"][a]["term"]
+        if sw["k"] != "switch" or a == block or not cfg.dominates(a, block) or len(sw["targets"]) != 1:
+            continue
+        # the discriminant: a comparison computed in this block from (a copy of) the variable and a constant
+        disc = sw["discr"]
+        if disc.get("k") not in ("copy", "move") or disc["pl"]["p"]:
+            continue
+        cmp_rv = None
+        for st in f["blocks"][a]["stmts"]:
+            if st["dst"] is not None and not st["dst"]["p"] and st["dst"]["l"] == disc["pl"]["l"] and st["rv"]["op"] == "bin":
+                cmp_rv = st["rv"]
+        if cmp_rv is None or cmp_rv["bop"] not in ("Lt", "Le", "Gt", "Ge"):
+            continue
+        x, y = cmp_rv["a"]
+        op = cmp_rv["bop"]
+        if y.get("k") == "const" and isinstance(y.get("v"), int) and _root_local(f, ex, x) == root:
+            k = y["v"]
+        elif x.get("k") == "const" and isinstance(x.get("v"), int) and _root_local(f, ex, y) == root:
+            k = x["v"]
+            op = {"Lt": "Gt", "Le": "Ge", "Gt": "Lt", "Ge": "Le"}[op]
+        else:
+            continue
+        true_succ, false_succ = sw["otherwise"], sw["targets"][0][1]
+        for succ, truth in ((true_succ, True), (false_succ, False)):
+            if succ == block or cfg.dominates(succ, block):
+                bound = None
+                if op == "Lt":
+                    bound = k - 1 if truth else None
+                elif op == "Le":
+                    bound = k if truth else None
+                elif op == "Gt":
+                    bound = None if truth else k
+                elif op == "Ge":
+                    bound = None if truth else k - 1
+                if bound is None or bound >= length:
+                    continue
+                # no assignment to the variable on a path from the guarded edge to the indexing (not through the test)
+                seen, work = set(), [succ]
+                while work:
+                    z = work.pop()
+                    if z in seen or z == a:
+                        continue
+                    seen.add(z)
+                    work.extend(cfg.succ[z])
+                back, work = set(), [block]
+                while work:
+                    z = work.pop()
+                    if z in back or z == a:
+                        continue
+                    back.add(z)
+                    work.extend(cfg.pred[z])
+                between = seen & back
+                if not (def_blocks & between) and root not in ex.mutref:
+                    return "index <= %d < len %d by the dominating test at bb%d" % (bound, length, a)
+    return None
+
+
 class Site:
     def __init__(self, fn, kind, detail, block, line, cls, exp, info=""):
         self.fn, self.kind, self.detail, self.block, self.line, self.cls, self.exp, self.info = fn, kind, detail, block, line, cls, exp, info
@@ -160,6 +243,10 @@ def sites_of(f, exact, prefix):
                     lv = None
                 if ub is not None and lv is not None and ub < lv:
                     s.auto = "index <= %d < len %d by mask/shift bounds" % (ub, lv)
+                if s.auto is None and lv is not None:
+                    g = _dominating_guard(f, cfg, ex, b, m["index"], lv)
+                    if g:
+                        s.auto = g
                 s.info = "index %s, len %s" % (show(idx), show(ln))
             if s.auto is None and m["k"] == "overflow":
                 a = [ex.operand(x) for x in m["a"]]
